@@ -71,8 +71,8 @@ CLAIMED = {
         "technique": TECH,
     },
     "C12": {
-        "level_text": "bounded symbolic verification, in-process, of the real _async_worker command loop (reset, step..., close) driven by a scripted pipe and a scripted sub-environment, with the real process_transition / get_placeholder_value / write_to_shared_memory / create_shared_memory (ctypes arrays) / Observations; of PettingZooVecEnv.step -> step_async -> step_wait on an instance wired to in-memory pipes; and of PettingZooAutoResetParallelWrapper.step: for all terminated/truncated flags, rewards, presence of agents in the returned dicts and actions at agents<=2(3), envs<=3, steps<=2, vector / image / dict / tuple observation spaces: what the worker sends for env i and writes at slot i is what env i returned (placeholders for absent agents), other slots are untouched, env i is reset iff every reporting agent terminated or truncated and the observation surfaced is then the new episode's first, env i is handed exactly [actions[a][i] for a in agents], the parent assembles position i from worker i, copy mode does not alias shared memory, and the wrapper restarts under the same condition",
-        "level_note": NOTE + "; observation contents are concrete pairwise-distinct labels (typed shared memory), flags/rewards/actions symbolic; real process scheduling, pickling, cross-process shared memory, seeds are outside",
+        "level_text": "bounded symbolic verification, in-process, of the real _async_worker command loop (reset, step..., close) driven by a scripted pipe and a scripted sub-environment, with the real process_transition / get_placeholder_value / write_to_shared_memory / create_shared_memory (ctypes arrays) / Observations; of PettingZooVecEnv.reset -> reset_async -> reset_wait (symbolic integer seed, list of seeds, None; options) and PettingZooVecEnv.step -> step_async -> step_wait on an instance wired to in-memory pipes; and of PettingZooAutoResetParallelWrapper.step: for all terminated/truncated flags, rewards, presence of agents in the returned dicts and actions at agents<=2(3), envs<=3, steps<=2, vector / image / dict / tuple observation spaces: what the worker sends for env i and writes at slot i is what env i returned (placeholders for absent agents), other slots are untouched, env i is reset iff every reporting agent terminated or truncated and the observation surfaced is then the new episode's first, env i is handed exactly [actions[a][i] for a in agents], the parent assembles position i from worker i, copy mode does not alias shared memory, and the wrapper restarts under the same condition",
+        "level_note": NOTE + "; observation contents are concrete pairwise-distinct labels (typed shared memory), flags/rewards/actions symbolic; real process scheduling, pickling, cross-process shared memory and what a real environment does with its seed are outside (that sub-environment i is handed seed+i / seed[i] / None and the options is decided)",
         "technique": TECH,
     },
     "C13": {
@@ -86,8 +86,8 @@ CLAIMED = {
         "technique": TECH,
     },
     "C14": {
-        "level_text": "bounded symbolic verification of the real action selection of DQN (get_action/_get_action), CQN, RainbowDQN (numpy masked arg-max path), DDPG, TD3 (noise + clip), PPO (evaluation-mode clip / squashed policy), MADDPG / MATD3 (exploration clamp with per-dimension bounds, masked arg-max of discrete actions) and DeterministicActor.rescale_action on real agents with stub policy networks: for all network outputs (ties included), masks with >= 1 legal action, epsilon in [0,1], every uniform draw in [0,1) and all exploration noise at batch<=2(3), actions<=3(4), 2-3 action dims with asymmetric per-dimension bounds: the action has the batch shape, is a valid index whose mask bit is 1, is a best allowed action when exploration is off (epsilon 0 / training False), lies inside [low,high] for the continuous learners and evaluation-mode PPO, and rescale_action is the affine image of the activation range",
-        "level_note": NOTE + "; that a real network's output activation delivers the assumed range, IPPO action selection, env-defined actions, the bandits' masked arg-max (C19) and MultiDiscrete/MultiBinary sampling (C16) are outside this check",
+        "level_text": "bounded symbolic verification of the real action selection of DQN (get_action/_get_action), CQN, RainbowDQN (numpy masked arg-max path), DDPG, TD3 (noise + clip), PPO (evaluation-mode clip / squashed policy), MADDPG / MATD3 (exploration clamp with per-dimension bounds, masked arg-max of discrete actions, environment-defined actions), IPPO (StochasticActor.forward's scaling of a squashed sample, evaluation-mode clipping, environment-defined actions, mask routing) and DeterministicActor.rescale_action on real agents with stub policy networks, plus the real EvolvableDistribution heads (squashed range after recreate/clone, masked sampling): for all network outputs (ties included), masks with >= 1 legal action, epsilon in [0,1], every uniform draw in [0,1) and all exploration noise at batch<=2(3), actions<=3(4), 2-3 action dims with asymmetric per-dimension bounds: the action has the batch shape, is a valid index whose mask bit is 1, is a best allowed action when exploration is off (epsilon 0 / training False), lies inside [low,high] for the continuous learners and evaluation-mode PPO, and rescale_action is the affine image of the activation range",
+        "level_note": NOTE + "; that a real network's output activation delivers the assumed range, the bandits' masked arg-max (C19) is outside this check; the policy heads' sampling is decided by the cases shared with C16",
         "technique": TECH,
     },
     "C15": {
